@@ -111,6 +111,21 @@ func main() {
 	switch os.Args[1] {
 	case "gen":
 		cmdGen(os.Args[2:])
+	case "ssa":
+		L, err := Load("/repo", "")
+		if err != nil {
+			panic(err)
+		}
+		for _, p := range L.Engine.ssaPkgs {
+			for _, m := range p.Members {
+				if f, ok := m.(*ssa.Function); ok && strings.Contains(f.Name(), os.Args[2]) {
+					f.WriteTo(os.Stdout)
+					for _, a := range f.AnonFuncs {
+						a.WriteTo(os.Stdout)
+					}
+				}
+			}
+		}
 	case "verify":
 		cmdVerify(os.Args[2:])
 	case "check":
